@@ -389,6 +389,14 @@ fn check_c02_call(ctx: &mut Ctx, client: &StatsdClient, cfg: &ClientCfg, sink: &
                 }
                 ctx.rep.distinct(&format!("{:?}|{}|{}|{}", sp.kind, sp.val.type_tag(), num_class(v), if e.values.len() > 1 { "packed" } else { "single" }));
             }
+            // the standalone constructors (`Gauge::new` ...) render the same value types: same numerals
+            if let Some(st) = panics::guard(|| standalone(sp.kind, &norm_prefix(&cfg.prefix_raw), &sp.key, &sp.val)).ok().flatten() {
+                ctx.rep.obs("standalone_value_fields_checked", 1);
+                if let Some(Err(why)) = value_field_matches(e, &st) {
+                    ctx.violation("C02", "numeral", "standalone-constructor-numeral", format!("standalone constructor renders {:?}: {}", clip(&st, 120), why), trace());
+                    return;
+                }
+            }
             // sampling rate
             if let Some(rate) = e.rate {
                 let tail = &rest[bar..];
